@@ -5,12 +5,17 @@ from lunaverif.core import Sub, Result, fail
 from lunaverif.gen import long_lists, weighted
 from lunaverif.bfm import g9_usb2host as H
 from lunaverif.bfm import g9_hostgen as G
+from lunaverif.bfm import g9_skiprig as K
 from lunaverif.ref import g9_device_model as M
 
 PROPERTY = "C10"
 ASSUMPTIONS = [
     "full-speed device on a bare UTMI bus with a standard control endpoint only (no class/vendor handler): every "
     "non-standard request is unclaimed",
+    "second configuration 'skip': the same device with StandardRequestHandler(skiplist=[GET_DESCRIPTOR of type 0x22, "
+    "bRequest 11]) and an application handler (written in lunaverif/bfm/g9_skiprig.py) that claims only "
+    "GET_DESCRIPTOR(0x22, *): index 0 is a supported request (control class), other indexes are STALLed by that "
+    "handler; skiplisted bRequest 11 is claimed by nobody and must be STALLed by the fallback",
     "requests whose bRequest names an implemented standard request are sent only in that request's valid form "
     "(direction, wLength, recipient) -- the statement is silent about malformed variants; CLEAR_FEATURE varies "
     "freely in recipient and feature selector",
@@ -76,10 +81,15 @@ class Unsupported(Sub):
             "bulk IN/OUT on every endpoint, GET_CONFIGURATION); oracle = independent model: an unsupported request "
             "gets STALL at its first data-stage IN or at its status stage, no data packet, no ACK of its OUT data, "
             "and no change of address/configuration/toggles (seen by the observation traffic); supported requests "
-            "in valid form are the control class; non-trivial = at least one unsupported request was STALLed")
+            "in valid form are the control class; non-trivial = at least one unsupported request was STALLed. Half of the "
+            "cases run on a second configuration: the standard handler built with a skiplist (GET_DESCRIPTOR of type 0x22 "
+            "-> served by an application handler for index 0 and STALLed by it otherwise; bRequest 11 -> claimed by "
+            "nobody, STALLed by the fallback), 1..5 requests in which skiplisted requests (complete, abandoned, lost "
+            "ACK) precede and follow the arbitrary ones, same oracle")
 
     def setup(self):
-        self.rig = H.rig("full")
+        self.rigs = {"full": H.rig("full"), "skip": K.rig()}
+        self.rig = self.rigs["full"]
 
     def strategy(self):
         def anything():
@@ -111,12 +121,43 @@ class Unsupported(Sub):
             noack=weighted([(0, 7), (1, 1), (2, 1)]),
             obs=st.lists(st.integers(0, len(OBSERVE) - 1), min_size=0, max_size=3),
         ))
-        return st.fixed_dictionaries(dict(
+        full = st.fixed_dictionaries(dict(
             pre=st.integers(0, 127), addr=st.integers(1, 127), cfg=st.integers(1, 255),
             reqs=long_lists(req, min_size=1, max_size=4, average=2.2), **G.env_fields()))
+        # configuration "skip": requests the standard handler is told to skip (served by the application handler:
+        # GET_DESCRIPTOR(0x22, index) with any recipient / length; claimed by nobody: bRequest 11 in any shape) mixed
+        # with everything above, so that every kind of request follows / precedes a skipped one
+        report = st.tuples(st.sampled_from([0x80, 0x80, 0x81, 0x82]), st.just(6),
+                           weighted([(0, 4), (1, 1), (0xFF, 1)]).map(lambda i: (K.REPORT_TYPE << 8) | i),
+                           st.sampled_from([0, 0, 1, 0x0409]),
+                           st.sampled_from([1, 2, len(K.REPORT) - 1, len(K.REPORT), len(K.REPORT) + 1, 64, 255, 0xFFFF])).map(list)
+        set_interface = st.tuples(bm_values.map(lambda b: b & 0x9F), st.just(K.SKIPPED_UNCLAIMED_REQUEST), wvalue_values,
+                                  windex_values, wlength_values).map(list)
+        # standard-type requests the device does not implement and the skiplist does not name (any direction,
+        # recipient, length), and unsupported CLEAR_FEATUREs: the class the property is about, drawn directly so
+        # that it is well represented right after a skipped request
+        unimplemented = st.tuples(bm_values.map(lambda b: b & 0x9F),
+                                  st.one_of(st.sampled_from([c for c in STD_OTHER if c != K.SKIPPED_UNCLAIMED_REQUEST]),
+                                            st.integers(13, 255)),
+                                  wvalue_values, windex_values, wlength_values).map(list)
+        std_req = st.fixed_dictionaries(dict(
+            raw=st.one_of(unimplemented, unimplemented, clear_feature), early=weighted([(None, 6), (0, 1), (1, 1)]),
+            again=weighted([(0, 6), (1, 1)]), cut=st.just(0), noack=st.just(0),
+            obs=st.lists(st.integers(0, len(OBSERVE) - 1), min_size=0, max_size=2)))
+        # a skipped request (complete, abandoned, lost ACK), optionally with the request that directly follows it
+        skip_req = st.fixed_dictionaries(dict(
+            raw=st.one_of(report, report, set_interface), early=weighted([(None, 6), (0, 1), (1, 1)]),
+            again=weighted([(0, 6), (1, 1)]), cut=weighted([(0, 8), (1, 1), (2, 1)]),
+            noack=weighted([(0, 7), (1, 1), (2, 1)]),
+            obs=st.lists(st.integers(0, len(OBSERVE) - 1), min_size=0, max_size=1),
+            then=st.one_of(st.none(), std_req, std_req, req)))
+        skip = st.fixed_dictionaries(dict(
+            dev=st.just("skip"), pre=st.integers(0, 127), addr=st.integers(1, 127), cfg=st.integers(1, 255),
+            reqs=long_lists(st.one_of(req, skip_req, std_req), min_size=1, max_size=4, average=2.5), **G.env_fields()))
+        return st.one_of(full, skip)
 
     def build(self, case):
-        b = G.Builder(self.rig.descriptors)
+        b = G.Builder(self.rigs[case.get("dev", "full")].descriptors)
         pre = case["pre"]
         if pre & 1:
             b.item(dict(k="ctrl", req=[0, 5, case["addr"], 0, 0]))
@@ -127,7 +168,7 @@ class Unsupported(Sub):
                 for it in items:
                     b.item(it)
         self.n_pre = len(b.transfers)
-        for r in case["reqs"]:
+        for r in [x for r in case["reqs"] for x in (r, r.get("then")) if x]:
             b.item(dict(k="ctrl", req=canonical(r["raw"]), early=r["early"], again=r["again"],
                         cut=r.get("cut", 0), noack=r.get("noack", 0)))
             for o in r["obs"]:
@@ -141,7 +182,8 @@ class Unsupported(Sub):
 
     def run(self, case):
         b = self.build(case)
-        run = H.execute("full", b.prog, **G.env_of(case))
+        dev = case.get("dev", "full")
+        run = H.execute(dev, b.prog, **G.env_of(case))
         body = [tr for tr in b.transfers[self.n_pre:] if tr["first"] <= (run.txns[-1]["i"] if run.txns else 0)]
         if run.violation is not None:
             v = run.violation
@@ -152,6 +194,12 @@ class Unsupported(Sub):
                 cur = [tr for tr in b.transfers if tr["first"] <= t["i"] <= tr["last"]]
                 if stalled_cf and not (cur and cur[0]["name"] == "clear_feature_other"):
                     sig = "stalled-clear-feature-stays-armed"
+                elif dev == "skip" and cur and t["ep"] == 0 and t["kind"] != "setup":
+                    # the verdict of the standard handler's skiplist for the previous standard-type request differs
+                    # from the one for the judged request
+                    before = [K.skipped(tr["req"]) for tr in b.transfers[:cur[0]["index"]] if not (tr["req"][0] >> 5) & 3]
+                    if before and bool(before[-1]) != bool(K.skipped(cur[0]["req"])):
+                        sig = "skiplist-verdict-of-previous-request:" + sig
             return fail(v["msg"], signature=sig)
         err = H.stream_check(run)
         if err:
@@ -162,8 +210,21 @@ class Unsupported(Sub):
         for prev, tr in zip(body, body[1:]):
             if prev["abandoned"] and tr["info"]["kind"] == "unsupported":
                 labels.add("unsupported-after-abandoned-transfer")
+        if dev == "skip":
+            labels.add("skiplist-configuration")
+            std = [tr for tr in b.transfers if not (tr["req"][0] >> 5) & 3]
+            for prev, tr in zip(std, std[1:]):
+                if tr["index"] >= self.n_pre and tr["done"] > 1:
+                    a, c = K.skipped(prev["req"]), K.skipped(tr["req"])
+                    if a and not c:
+                        labels.add(("unsupported" if tr["info"]["kind"] == "unsupported" else "supported")
+                                   + "-standard-request-after-skiplisted-" + a)
+                    elif c and not a:
+                        labels.add("skiplisted-" + c + "-after-handled-standard-request")
         for tr in body:
             bm, breq, wvalue, windex, wlength = tr["req"]
+            if dev == "skip" and K.skipped(tr["req"]):
+                labels.add("skiplisted-" + K.skipped(tr["req"]) + "-" + tr["info"]["kind"])
             if tr["info"]["kind"] == "unsupported":
                 stalled += 1
                 cls = tr["name"]
